@@ -81,6 +81,84 @@ mod verif_c12 {
         kani::cover!(true, "reach-end");
     }
 
+    fn scalar2(kind: usize) -> Value {
+        match kind {
+            0 => Value::Number(kani::any()),
+            _ => Value::Boolean(kani::any()),
+        }
+    }
+
+    /// Tuples built separately from scalars (kinds concrete, payloads symbolic): `==` is element-wise and
+    /// equal tuples hash alike through the real Value::hash -> Gc<ObjTuple>::hash -> element hashes
+    /// (so (0, x) and (-0, x) select the same entry); a tuple never equals a scalar.
+    fn tuple_pair_case(k0: usize, k1: usize) {
+        use crate::memory::verif_mem::Placed;
+        use crate::object::ObjTuple;
+        let (a0, a1, b0, b1) = (scalar2(k0), scalar2(k1), scalar2(k0), scalar2(k1));
+        let mut ta = Placed::new(ObjTuple::new(Gc::dangling(), vec![a0, a1]));
+        let mut tb = Placed::new(ObjTuple::new(Gc::dangling(), vec![b0, b1]));
+        let (va, vb) = (Value::ObjTuple(ta.gc()), Value::ObjTuple(tb.gc()));
+        let eq = va == vb;
+        assert!(eq == (ref_eq(&a0, &b0) && ref_eq(&a1, &b1)), "tuple equality is element-wise");
+        assert!(va.has_hash() && vb.has_hash(), "tuples of scalars are hashable");
+        kani::cover!(eq, "reach-equal");
+        if eq {
+            assert!(h(&va) == h(&vb), "equal tuples built separately hash alike");
+        }
+        assert!(!(va == a0) && !(a0 == va), "a tuple never equals a scalar");
+        std::mem::forget(ta);
+        std::mem::forget(tb);
+    }
+
+    #[kani::proof]
+    #[kani::unwind(4)]
+    #[kani::stub(std::fmt::format, fmt_stub)]
+    fn c12_tuple_eq_hash_coherent_num_num() {
+        tuple_pair_case(0, 0);
+    }
+
+    #[kani::proof]
+    #[kani::unwind(4)]
+    #[kani::stub(std::fmt::format, fmt_stub)]
+    fn c12_tuple_eq_hash_coherent_num_bool() {
+        tuple_pair_case(0, 1);
+    }
+
+    /// has_hash is a pure predicate: asking twice gives the same answer (the cycle guard it uses is
+    /// released on every path), for a tuple holding an unhashable value directly or through a nested
+    /// tuple, and for a hashable one; Value::hash does not reach its panic arm when has_hash says yes.
+    #[kani::proof]
+    #[kani::unwind(4)]
+    #[kani::stub(std::fmt::format, fmt_stub)]
+    fn c12_has_hash_is_pure_for_tuples() {
+        use crate::memory::verif_mem::Placed;
+        use crate::object::{ObjTuple, ObjVec};
+        use std::cell::RefCell;
+        let x: f64 = kani::any();
+        let mut vec = Placed::new(RefCell::new(ObjVec::new(Gc::dangling())));
+        let unhashable = Value::ObjVec(vec.gc());
+        assert!(!unhashable.has_hash(), "a vector is not hashable");
+        let first: bool = kani::any();
+        let elems = if first { vec![unhashable, Value::Number(x)] } else { vec![Value::Number(x), unhashable] };
+        let mut bad = Placed::new(ObjTuple::new(Gc::dangling(), elems));
+        let vbad = Value::ObjTuple(bad.gc());
+        let mut outer = Placed::new(ObjTuple::new(Gc::dangling(), vec![Value::Boolean(true), vbad]));
+        let vouter = Value::ObjTuple(outer.gc());
+        let mut good = Placed::new(ObjTuple::new(Gc::dangling(), vec![Value::Number(x), Value::None]));
+        let vgood = Value::ObjTuple(good.gc());
+        kani::cover!(!first, "reach-unhashable-last");
+        assert!(!vbad.has_hash(), "a tuple holding a vector is unhashable");
+        assert!(!vbad.has_hash(), "... and still unhashable when asked again");
+        assert!(!vouter.has_hash(), "so is a tuple nesting it");
+        assert!(!vouter.has_hash() && !vbad.has_hash(), "... whenever asked");
+        assert!(vgood.has_hash() && vgood.has_hash(), "a tuple of hashables is hashable");
+        let _ = h(&vgood);
+        std::mem::forget(vec);
+        std::mem::forget(bad);
+        std::mem::forget(outer);
+        std::mem::forget(good);
+    }
+
     /// Twin: must FAIL (vacuity guard for the group).
     #[kani::proof]
     #[kani::unwind(4)]
